@@ -303,10 +303,22 @@ pub fn execute(c: &GCfg, seed: u64) -> W {
     w
 }
 
-pub fn c13(h: &Hist, v: &mut Verdicts) {
+pub fn c13(h: &Hist, v: &mut Verdicts, hazard: u8) {
     v.evaluated.insert("C13");
     let sh = &h.st[0];
     let slow = sh.stops.iter().any(|r| r.how != STOP_CLOSE && r.ms >= 2500);
+    if slow && hazard == 0 && !cfg!(miri) {
+        // no callback of these programs is parked or slow (microseconds at most): a stop() that took that
+        // long and returned before the reducer loop's last act (releasing the sentinel) was completed by
+        // its timeout, not because the work was done
+        let settled = crate::oracle_a::settled_stop_ret(h, 0);
+        let released = h.evs.iter().find(|e| e.k == K::SUnsub && e.idx == 0 && e.store == 0).map(|e| e.seq);
+        if released.map(|r| r > settled).unwrap_or(true) {
+            let ms = sh.stops.iter().filter(|r| r.how != STOP_CLOSE).map(|r| r.ms).max().unwrap_or(0);
+            v.fail("C13", format!("a stop() took {} ms and returned while the reducer loop was still running ({}), although every callback of the program returns within microseconds: it completed because its timeout expired, not because the work was done", ms, match released { Some(r) => format!("subscribers released at seq {}, stop() had returned at seq {}", r, settled), None => "subscribers never released".to_string() }));
+            return;
+        }
+    }
     if slow {
         v.inconcl("C13", "a stop() took >= 2.5 s but the reducer loop finished (slow, not wedged)".into());
         return;
@@ -344,7 +356,7 @@ pub fn run(seed: u64, tiny: bool, thorough: bool) -> Outcome {
     let w = execute(&c, seed);
     let h = Hist::from_world(&w);
     let mut v = Verdicts::default();
-    c13(&h, &mut v);
+    c13(&h, &mut v, c.hazard);
     crate::fam_d::c09(&h, 0, &mut v);
     crate::oracle_a::c08(&h, 0, &mut v);
     Outcome::new(describe(&c), h, v)
